@@ -5,7 +5,7 @@ PROP = "C09"
 
 
 def run(tier):
-    QUICK_CFGS = lambda: vfsrun.cfgs([0, 5], [0, 2, 3], [2, 3, 6, 7]) + vfsrun.cfgs([5], [2], [0, 1, 4])
+    QUICK_CFGS = lambda: vfsrun.cfgs([0, 5], [0, 2, 3], [2, 3, 6, 7]) + vfsrun.cfgs([5], [2], [0, 1, 4]) + vfsrun.cfgs([5], [0, 3], [2, 6], shapes=(5,))
     extra = []
     if tier == "quick":
         cfgs = QUICK_CFGS()
@@ -15,13 +15,14 @@ def run(tier):
         depth = 4
         extra = [(QUICK_CFGS(), 5)]      # depth 5 on the quick configuration set, depth 4 on the full set: sized to finish (see vfsrun.DEADLINE)
     deep = (vfsrun.cfgs([0, 5], [0, 3], [2, 3, 6, 7]), 6) if tier == 'quick' else (cfgs, 7)
+    reconf = (vfsrun.cfgs([0, 5], [0, 3], [2, 6]), 5) if tier == 'quick' else (vfsrun.cfgs([0, 1, 5], [0, 2, 3], [2, 6]), 7)
     return vfsrun.hist_check(
         PROP, tier, cfgs, depth, maxday=2,
         rule="every operation history up to the depth bound mixing writes, day jumps of 1-2 days (crossing Feb 28 -> Feb 29 -> Mar 1), size rotations, restarts (the active "
              "file then carries a virtual modification time from an earlier day) and retention removals, with daily rotation on; after every operation each file is located "
              "in the written stream: all its records were written on one day and a rotated file's name carries that day; every rename target is checked at the system call: "
              "never an existing path, never a name used before; indices per date strictly increase in order of appearance (also checked without daily rotation)",
-        deep=deep, assumptions=vfsrun.COMMON_ASSUMPTIONS + ["the clock only moves forward"],
+        deep=deep, reconf=reconf, assumptions=vfsrun.COMMON_ASSUMPTIONS + ["the clock only moves forward"],
         long_cfgs=vfsrun.cfgs([1], [0, 3], [2, 6]), long_writes=(12,))
 
 
